@@ -9,7 +9,7 @@
 //! after a content mutation, exactly the signatures whose (canonical, for text) document is
 //! unchanged.  Entry points: `verify_nested_explicit(i, key_i)` for every i, `verify_nested(keys)`,
 //! `verify` / `verify_read` (signature 0).
-use super::inline::assemble;
+use super::inline::{assemble, ops_disagrees};
 use super::text::{cut_after_cr, eol_mutations, lit_head, ops_body};
 use super::*;
 use crate::io::ScheduledReader;
@@ -206,6 +206,256 @@ pub(super) fn run_all(ctx: &mut Ctx, fixes: &[Fix]) {
                         ctx.oracle("original_verifies", "mixed signed message", &inp, !original, &e);
                     }
                     Err(p) => ctx.oracle("original_verifies", "mixed signed message", &inp, false, &format!("panic {p}")),
+                }
+            }
+        }
+    }
+}
+
+// ------------------------------------------------------------------------------------------
+// pairing of One-Pass headers with trailing signatures
+// ------------------------------------------------------------------------------------------
+
+struct Signer<'a> {
+    name: String,
+    sec: &'a SecAny,
+    public: &'a PubAny,
+    text: bool,
+    hash: HashAlgorithm,
+    one_pass: bool,
+}
+
+struct Made {
+    name: String,
+    public: PubAny,
+    one_pass: bool,
+    body: Vec<u8>,
+    ops: Option<Vec<u8>>,
+}
+
+fn permutations(n: usize) -> Vec<Vec<usize>> {
+    if n <= 3 {
+        let mut out = vec![vec![]];
+        for _ in 0..n {
+            let mut next = Vec::new();
+            for p in &out {
+                for x in 0..n {
+                    if !p.contains(&x) {
+                        let mut q: Vec<usize> = p.clone();
+                        q.push(x);
+                        next.push(q);
+                    }
+                }
+            }
+            out = next;
+        }
+        out
+    } else {
+        // identity and every transposition
+        let id: Vec<usize> = (0..n).collect();
+        let mut out = vec![id.clone()];
+        for a in 0..n {
+            for b in a + 1..n {
+                let mut p = id.clone();
+                p.swap(a, b);
+                out.push(p);
+            }
+        }
+        out
+    }
+}
+
+/// "a one-pass header that does not agree with its trailing signature never yields a successful
+/// verification": the reader pairs One-Pass packet number j (of n) with the trailing Signature packet
+/// at position n-1-j (RFC 9580 10.3: one-pass signed messages nest).  The trailing signatures of
+/// messages whose One-Pass headers differ (hash, type, issuer, version, salt) are permuted; index i
+/// may verify, under key m, only if the signature at ITS position was made by m and agrees with
+/// header i - whatever other trailing signatures of the message would agree with it.
+pub(super) fn run_pairing(ctx: &mut Ctx, fixes: &[Fix]) {
+    let mut rng = ChaCha8Rng::seed_from_u64(ctx.rng.gen());
+    let find = |n: &str| fixes.iter().find(|f| f.name == n);
+    let (Some(l4), Some(e6), Some(e4), Some(p256)) = (find("ed25519legacy-v4"), find("ed25519-v6"), find("ed25519-v4"), find("ecdsa-p256-v4")) else { return };
+    use HashAlgorithm::{Sha256, Sha512};
+    let mk = |fix: &'static str, sub: bool, text: bool, hash: HashAlgorithm, one_pass: bool| (fix, sub, text, hash, one_pass);
+    // (what differs between the headers, signers in order of appearance)
+    let shapes: Vec<(&str, Vec<(&'static str, bool, bool, HashAlgorithm, bool)>)> = vec![
+        ("hash", vec![mk("l4", false, false, Sha256, true), mk("l4", true, false, Sha512, true)]),
+        ("type", vec![mk("l4", false, false, Sha256, true), mk("l4", true, true, Sha256, true)]),
+        ("issuer-only", vec![mk("l4", false, false, Sha256, true), mk("l4", true, false, Sha256, true)]),
+        ("version", vec![mk("l4", false, false, Sha256, true), mk("e6", false, false, Sha256, true)]),
+        ("salt", vec![mk("e6", false, false, Sha256, true), mk("e6", true, false, Sha256, true)]),
+        ("pk", vec![mk("e4", false, false, Sha512, true), mk("l4", false, false, Sha512, true)]),
+        ("mixed3", vec![mk("l4", false, false, Sha256, true), mk("e6", false, true, Sha512, true), mk("l4", true, false, Sha512, true)]),
+        ("v6-3", vec![mk("e6", false, false, Sha256, true), mk("e6", true, false, Sha512, true), mk("e4", false, true, Sha512, true)]),
+        ("prefixed-first", vec![mk("p256", false, false, Sha256, false), mk("l4", false, false, Sha256, true), mk("l4", true, false, Sha512, true)]),
+        ("prefixed-between", vec![mk("l4", false, true, Sha256, true), mk("p256", false, false, Sha256, false), mk("e6", false, false, Sha512, true)]),
+        ("mixed4", vec![mk("l4", false, false, Sha256, true), mk("l4", true, false, Sha512, true), mk("e6", false, true, Sha256, true), mk("e4", false, false, Sha512, true)]),
+    ];
+    let docs: Vec<(&str, Vec<u8>)> = vec![("lf-inside", b"pay 100 to alice\nref 4711".to_vec()), ("crlf", b"a\r\nb".to_vec())];
+    for (di, (dname, doc)) in docs.iter().enumerate() {
+        for (what, spec) in &shapes {
+            if di > 0 && !ctx.thorough() && !matches!(*what, "hash" | "mixed3") {
+                continue;
+            }
+            let signers: Vec<Signer> = spec
+                .iter()
+                .map(|(f, sub, text, hash, one_pass)| {
+                    let fix = match *f { "l4" => l4, "e6" => e6, "e4" => e4, _ => p256 };
+                    Signer { name: format!("{}{}", fix.name, if *sub { "/sub" } else { "" }), sec: if *sub { &fix.sub_sec } else { &fix.prim_sec }, public: if *sub { &fix.sub_pub } else { &fix.prim_pub }, text: *text, hash: *hash, one_pass: *one_pass }
+                })
+                .collect();
+            let n_ops = signers.iter().filter(|s| s.one_pass).count();
+            let mut made: Vec<Made> = Vec::new();
+            let mut t0 = Tables::default();
+            let mut seen_ops = 0;
+            for s in &signers {
+                let typ = if s.text { SignatureType::Text } else { SignatureType::Binary };
+                let Ok(cfg) = config_for(&mut rng, s.sec, typ, s.hash, false, None) else { break };
+                let Ok(Ok(sig)) = guarded(|| cfg.sign(s.sec, &Password::empty(), &doc[..])) else { break };
+                if log_original(&mut t0, &sig, &Subject::Doc(doc.clone()), s.public).is_err() {
+                    break;
+                }
+                if s.one_pass {
+                    seen_ops += 1;
+                }
+                let ops = if s.one_pass { ops_body(&sig, s.public, if seen_ops == n_ops { 1 } else { 0 }) } else { None };
+                made.push(Made { name: s.name.clone(), public: s.public.clone(), one_pass: s.one_pass, body: body_of(&sig), ops });
+            }
+            if made.len() != signers.len() {
+                ctx.stat("pairing:skipped");
+                continue;
+            }
+            ctx.stat(&format!("pairing:{what}"));
+            let any_text = signers.iter().any(|s| s.text);
+            let keys: Vec<VK> = made.iter().map(|m| VK { k: m.public.clone(), yes: false }).collect();
+            // trailing signatures in nesting order: the one-pass signatures, last header first
+            let ops_idx: Vec<usize> = made.iter().enumerate().filter(|(_, m)| m.one_pass).map(|(i, _)| i).collect();
+            let nested: Vec<usize> = ops_idx.iter().rev().copied().collect();
+            // the variants of the heads: as signed, and with the first One-Pass header naming a hash
+            // algorithm for which no hasher can be made (it then takes no trailing signature)
+            for unknown_first in [false, true] {
+                if unknown_first && (di > 0 || !matches!(*what, "mixed3" | "hash" | "prefixed-first")) {
+                    continue;
+                }
+                let heads: Vec<(bool, Vec<u8>)> = made
+                    .iter()
+                    .enumerate()
+                    .map(|(i, m)| match &m.ops {
+                        Some(o) => {
+                            let mut o = o.clone();
+                            if unknown_first && Some(&i) == ops_idx.first() {
+                                o[2] = 99;
+                            }
+                            (true, o)
+                        }
+                        None => (false, m.body.clone()),
+                    })
+                    .collect();
+                for perm in permutations(n_ops) {
+                    let trailing: Vec<usize> = perm.iter().map(|&p| nested[p]).collect();
+                    let identity = perm.iter().enumerate().all(|(a, b)| a == *b);
+                    // wire bytes
+                    let mut lit = lit_head(any_text);
+                    lit.extend_from_slice(doc);
+                    let mut pk: Vec<(u8, &[u8])> = heads.iter().map(|(op, b)| (if *op { 4u8 } else { 2u8 }, &b[..])).collect();
+                    pk.push((11, &lit));
+                    for &j in &trailing {
+                        pk.push((2, &made[j].body));
+                    }
+                    let bytes = assemble(&pk);
+                    let who: Vec<String> = made.iter().map(|m| format!("{}{}", if m.one_pass { "o:" } else { "p:" }, m.name)).collect();
+                    let inp = format!("one-pass pairing [{what}: {}] doc={dname} trailing order {:?}{} msg={}", who.join(" "), trailing, if unknown_first { " first-header-hash=99" } else { "" }, hx(&bytes));
+                    let mut t = t0.clone();
+                    for m in &made {
+                        t = tables_for(&t, &[&m.body], &Subject::Doc(doc.clone()));
+                    }
+                    let req = |i: usize, vk: &VK| -> String {
+                        let mut r = format!("snd_wire i={i}");
+                        for (op, b) in &heads {
+                            r.push_str(&format!(" h={}:{}", if *op { "o" } else { "p" }, hex::encode(b)));
+                        }
+                        for &j in &trailing {
+                            r.push_str(&format!(" t={}", hex::encode(&made[j].body)));
+                        }
+                        format!("{r} data={} {} {}", hx(doc), kdesc("k", &vk.k), t.show(false))
+                    };
+                    // run: the whole matrix index x key
+                    let res = guarded(|| -> Result<(Vec<Vec<String>>, Vec<bool>, String, String), String> {
+                        let parse = || Message::from_bytes(std::io::Cursor::new(bytes.clone())).map_err(|e| class("parse", &e.to_string()));
+                        let mut m = parse()?;
+                        let mut sink = Vec::new();
+                        m.read_to_end(&mut sink).map_err(|e| class("read", &e.to_string()))?;
+                        let mut mat = Vec::new();
+                        for i in 0..made.len() {
+                            let mut row = Vec::new();
+                            for k in &keys {
+                                row.push(match m.verify_nested_explicit(i, k) {
+                                    Ok(_) => "ok".to_string(),
+                                    Err(e) => class("verify", &e.to_string()),
+                                });
+                            }
+                            mat.push(row);
+                        }
+                        let refs: Vec<&dyn VerifyingKey> = keys.iter().map(|k| k as &dyn VerifyingKey).collect();
+                        let nested = m.verify_nested(&refs).map_err(|e| class("verify", &e.to_string()))?;
+                        let first = match m.verify(&keys[0]) {
+                            Ok(_) => "ok".to_string(),
+                            Err(e) => class("verify", &e.to_string()),
+                        };
+                        let mut m2 = parse()?;
+                        let vr = if m2.verify_read(&keys[0]).is_ok() { "ok" } else { "err" }.to_string();
+                        Ok((mat, nested.iter().map(|r| matches!(r, VerificationResult::Valid(_))).collect(), first, vr))
+                    });
+                    match res {
+                        Ok(Ok((mat, nestedv, first, vr))) => {
+                            for i in 0..made.len() {
+                                for (mi, k) in keys.iter().enumerate() {
+                                    ctx.case(req(i, k), mat[i][mi].clone());
+                                }
+                            }
+                            if unknown_first {
+                                ctx.stat(&format!("pairing:unknown_hash_header:{}", mat.iter().flatten().filter(|a| *a == "ok").count()));
+                                continue;
+                            }
+                            // which signature sits at the position of head i?
+                            for (i, m) in made.iter().enumerate() {
+                                let at: Option<usize> = if m.one_pass {
+                                    let j = ops_idx.iter().position(|&x| x == i).expect("ops");
+                                    Some(trailing[n_ops - 1 - j])
+                                } else {
+                                    Some(i)
+                                };
+                                for mi in 0..keys.len() {
+                                    let ok = mat[i][mi] == "ok";
+                                    let own = at.map(|j| {
+                                        let agree = match &m.ops {
+                                            Some(o) => !ops_disagrees(o, &made[j].body),
+                                            None => true,
+                                        };
+                                        j == mi && agree
+                                    }).unwrap_or(false);
+                                    let site = format!("one-pass signed message: verify_nested_explicit({i}, key {mi})");
+                                    ctx.oracle("valid_only_at_own_position", &site, &inp, !ok || own, &format!("index {i} verifies under key {mi} although the signature at its position is #{at:?}"));
+                                    if own {
+                                        ctx.oracle(if identity { "original_verifies" } else { "positional_pair_verifies" }, &site, &inp, ok, &mat[i][mi]);
+                                    }
+                                    ctx.stat(&format!("pairing:{}:{}", if own { "own" } else { "foreign" }, if ok { "ok" } else { "err" }));
+                                }
+                            }
+                            for mi in 0..keys.len() {
+                                let any = (0..made.len()).any(|i| mat[i][mi] == "ok");
+                                ctx.oracle("entry_points_agree", "one-pass signed message: verify_nested vs verify_nested_explicit", &inp, nestedv.get(mi) == Some(&any), &format!("key {mi}: nested {:?}", nestedv.get(mi)));
+                            }
+                            ctx.oracle("entry_points_agree", "one-pass signed message: verify / verify_read vs verify_nested_explicit(0, key 0)", &inp, first == mat[0][0] && (vr == "ok") == (mat[0][0] == "ok"), &format!("{first} {vr} {}", mat[0][0]));
+                        }
+                        Ok(Err(e)) => {
+                            for i in 0..made.len() {
+                                ctx.case(req(i, &keys[i]), e.clone());
+                            }
+                            ctx.oracle("original_verifies", "one-pass signed message", &inp, !identity || unknown_first, &e);
+                        }
+                        Err(p) => ctx.oracle("original_verifies", "one-pass signed message", &inp, false, &format!("panic {p}")),
+                    }
                 }
             }
         }
